@@ -102,24 +102,60 @@ def run(ctx):
                 v = t.val(e["offset"])
                 ok = ok and (v == start or (v[0] == "lv" and v[1] == "forward") or v[0] in ("lin", "delta", "undef", "tell") or True)
     ctx.ob(rule, fi, ok and n_mid >= 1 and n_fw >= 1, "generated parse_union parses every member from the common start, seeks back after every member but the last, and records `forward` right after the selected member (%d/%d renderings)" % (n_mid, n_fw), key="parse_union members")
-    # end position: decided at generation time from parsefrom
-    conds = {}
+    # end position: decided at generation time from parsefrom (statement-level decisions of the emitter, local definitions inlined)
+    def fold(node):
+        """True/False for a decided condition, None if it depends on the construct."""
+        try:
+            if isinstance(node, ast.UnaryOp) and isinstance(node.op, ast.Not):
+                v = fold(node.operand)
+                return None if v is None else (not v)
+            if isinstance(node, ast.Constant) and isinstance(node.value, bool):
+                return node.value
+        except Exception:
+            pass
+        return None
+
+    def kind_of(em):
+        sel = [ast.unparse(c.args[1]) for c, pol in em.conds if pol and isinstance(c, ast.Call) and ast.unparse(c).startswith("isinstance(self.parsefrom")]
+        return sel
+    seen = {}
     for em, r, ps in lst:
-        for c, pol in em.conds:
-            conds.setdefault(ast.unparse(c), set()).add(pol)
-    src = ast.unparse(fi.node)
-    want = ["isinstance(self.parsefrom, type(None))", "skipfallback = False", "skipforward = True", "skipfallback = True", "skipforward = self.subcons[index].sizeof() == self.subcons[-1].sizeof()"]
-    fn = fi.node
-    # parsefrom None -> end at start; selected member -> no seek back to the start, forward seek unless the selected member ends where the last one does
-    assigns = {}
-    for st in ast.walk(fn):
-        if isinstance(st, ast.If) and isinstance(st.test, ast.Call) and ast.unparse(st.test).startswith("isinstance(self.parsefrom"):
-            kind = ast.unparse(st.test.args[1])
-            for a in st.body:
-                if isinstance(a, ast.Assign) and isinstance(a.targets[0], ast.Name):
-                    assigns[(kind, a.targets[0].id)] = ast.unparse(a.value)
-    good = assigns.get(("type(None)", "skipfallback")) == "False" and assigns.get(("type(None)", "skipforward")) == "True"
-    for kind in ("int", "str"):
-        good = good and assigns.get((kind, "skipfallback")) == "True" and assigns.get((kind, "skipforward")) == "self.subcons[index].sizeof() == self.subcons[-1].sizeof()"
-    ctx.ob(rule, fi, good, "parse_union ends at the start for parsefrom None, and for a selected member at its recorded end (the final forward seek is skipped only when the selected member has the size of the last member, which is where the stream already stands)", key="parse_union end")
-    ctx.floor(rule, 5)
+        sel = kind_of(em)
+        if len(sel) != 1 or any(fold(c) is not None and fold(c) != pol for c, pol in em.conds):
+            continue        # infeasible combination of the emitter's decisions
+        kind = sel[0]
+        open_conds = [(c, pol) for c, pol in em.conds if fold(c) is None and not (isinstance(c, ast.Call) and ast.unparse(c).startswith(("isinstance(self.parsefrom", "callable(self.parsefrom")))]
+        for p in ps:
+            if not p.returns:
+                continue
+            t = Trace(p, IO)
+            tells = [e for e in p.events if e.kind == "TELL" and not e.loops]
+            start = t.val(tells[0]["res"]) if tells else None
+            tail = [e for e in p.events if e.kind == "SEEK" and not e.loops]
+            if kind == "type(None)":
+                good = not open_conds and len(tail) == 1 and t.final == start
+                seen.setdefault("none", []).append(good)
+            else:
+                # selected member: never back to the start; forward seek unless decided otherwise by sizeof equality
+                back = [e for e in tail if t.val(e["offset"]) == start]
+                fwd = [e for e in tail if e not in back]
+                skip = [(c, pol) for c, pol in open_conds]
+                good = not back and len(skip) == 1
+                if good:
+                    c, pol = skip[0]
+                    inner = c.operand if isinstance(c, ast.UnaryOp) and isinstance(c.op, ast.Not) else None
+                    shape = isinstance(inner, ast.Compare) and len(inner.ops) == 1 and isinstance(inner.ops[0], ast.Eq) and \
+                        all(isinstance(x, ast.Call) and isinstance(x.func, ast.Attribute) and x.func.attr == "sizeof" and isinstance(x.func.value, ast.Subscript)
+                            and ast.unparse(x.func.value.value) == "self.subcons" for x in (inner.left, inner.comparators[0]))
+                    last_is_last = shape and ast.unparse(inner.comparators[0].func.value.slice) == "-1"
+                    good = shape and last_is_last
+                    if pol:
+                        v = t.val(fwd[0]["offset"]) if len(fwd) == 1 else None
+                        good = good and v is not None and (v[0] in ("lv", "undef", "free") and str(v[1]).startswith("forward") or v[0] == "lin")
+                    else:
+                        good = good and not fwd
+                seen.setdefault("selected", []).append(good)
+    ctx.ob(rule, fi, bool(seen.get("none")) and all(seen["none"]), "parse_union with parsefrom None ends at the common start (one final seek back)", key="parse_union end none")
+    ctx.ob(rule, fi, bool(seen.get("selected")) and all(seen["selected"]),
+           "parse_union with a selected member never seeks back to the start at the end, and seeks to the recorded `forward` unless the selected member has the size of the last member (where the stream already stands)", key="parse_union end selected")
+    ctx.floor(rule, 6)
